@@ -2,7 +2,7 @@
    (Gen_engine_R): Lennard-Jones force = minus gradient, minimum-image distance. *)
 From Coq Require Import Reals Lra Lia ZArith List.
 From Coquelicot Require Import Coquelicot.
-From PV Require Import RNum Gen_engine_R.
+From PV Require Import RNum Tproj Gen_engine_R.
 Open Scope R_scope.
 
 Lemma Int_part_spec x : IZR (Int_part x) <= x < IZR (Int_part x) + 1.
